@@ -190,7 +190,6 @@ EvBlock(node, e, st0) ==
         ELSE body
       fin == EvFin(node.a[3], 1, e, H(afterBody.st, <<"finally", b>>), b)
   IN IF afterBody.o.t = "fuel" THEN afterBody
-     ELSE IF Len(node.a[3]) = 0 THEN R(afterBody.o, H(afterBody.st, <<"leave", b>>))
      ELSE IF fin.o.t \in {"err", "fuel"} THEN R(fin.o, H(fin.st, <<"leave", b>>))
      ELSE R(afterBody.o, H(fin.st, <<"leave", b>>))
 
@@ -381,16 +380,16 @@ Apply(fv, names, vals, st) ==
        ELSE IF r.o.t \in {"brk", "cont"} THEN R(RErr, r.st)       \* stray break / continue
        ELSE r
 
-\* comprehensions: a = <<kind, value expr (or <<key, value>> for maps), id, what, list expr, cond or "none">>
+\* comprehensions: a = <<value expr (a "kv" node <<key, value>> for maps), id, what, list expr, cond or "none">>
 EvCompr(node, items, i, le, st, acc) ==
   IF i > Len(items)
   THEN R(Val(CASE node.s = "list" -> ListV(acc) [] node.s = "set" -> SetV(SortVals(acc)) [] node.s = "map" -> MapV(acc)), st)
   ELSE IF st.fuel = 0 THEN R(O("fuel", Null), st)
   ELSE
   LET s1 == Put([st EXCEPT !.fuel = @ - 1], le, node.a[2], items[i])
-      kv == IF node.s = "map" THEN Ev(node.a[1][1], le, s1) ELSE R(Val(Null), s1)
+      kv == IF node.s = "map" THEN Ev(node.a[1].a[1], le, s1) ELSE R(Val(Null), s1)
   IN IF ~IsVal(kv) THEN kv
-  ELSE LET v == Ev(IF node.s = "map" THEN node.a[1][2] ELSE node.a[1], le, kv.st) IN
+  ELSE LET v == Ev(IF node.s = "map" THEN node.a[1].a[2] ELSE node.a[1], le, kv.st) IN
   IF ~IsVal(v) THEN v
   ELSE LET c == IF node.a[5].n = "none" THEN R(Val(Bool(TRUE)), v.st) ELSE Ev(node.a[5], le, v.st) IN
   IF ~IsVal(c) THEN c
@@ -462,7 +461,7 @@ Ev(node, e, st) ==
     [] node.n = "fn" ->                                   \* NodeLambda: capture the current frame
          R(Val(FnV(Len(st.fns) + 1)),
            [st EXCEPT !.fns = Append(@, [params |-> node.a[1], body |-> node.a[2], env |-> e])])
-    [] node.n = "call" ->                                 \* a = <<callee expr, args>>
+    [] node.n \in {"call", "pipe"} ->                     \* a = <<callee expr, args>>; x !> f(a) is f(x, a)
          LET f == Ev(node.a[1], e, st) IN
          IF ~IsVal(f) THEN f
          ELSE IF f.o.v.k # "fn" THEN R(RErr, f.st)
